@@ -847,6 +847,24 @@ func genIterBoundaries(g *Gen, tier string, w *bufio.Writer) {
 			fmt.Fprintln(w, "iter r idx")
 		}
 	}
+	// more than 512 bottom chunks (chunk indices that need more than 8 / 9 bits)
+	for _, c := range []struct {
+		e *Ty
+		n uint64
+	}{{&Ty{Kind: KUint, N: 8}, 2100}, {&Ty{Kind: KUint, N: 1}, 16500}, {&Ty{Kind: KUint, N: 32}, 520}, {&Ty{Kind: KBytesN, N: 32}, 515}} {
+		for _, t := range []*Ty{{Kind: KVector, N: c.n, Elem: c.e}, {Kind: KList, N: 1 << 30, Elem: c.e}} {
+			fmt.Fprintln(w, "begin")
+			fmt.Fprintf(w, "mk r %s %s %s\n", []string{"new", "dec"}[g.Intn(2)], t, g.RandVal(&Ty{Kind: KVector, N: c.n, Elem: c.e}, 1<<20))
+			fmt.Fprintln(w, "iter r ro")
+			fmt.Fprintln(w, "iter r idx")
+		}
+	}
+	for _, n := range []uint64{131073, 140000} {
+		t := &Ty{Kind: KBitvector, N: n}
+		fmt.Fprintln(w, "begin")
+		fmt.Fprintf(w, "mk r new %s %s\n", t, &Val{Kind: VBits, Bits: g.randBits(int(n))})
+		fmt.Fprintln(w, "iter r ro")
+	}
 	for _, n := range []uint64{96, 97, 128, 129, 160, 161, 224, 255, 257} {
 		for _, e := range []*Ty{{Kind: KUint, N: 1}, {Kind: KUint, N: 2}} {
 			for _, t := range []*Ty{{Kind: KVector, N: n, Elem: e}, {Kind: KList, N: n, Elem: e}, {Kind: KList, N: 1 << 30, Elem: e}} {
